@@ -31,6 +31,8 @@ pub enum Distractor {
     GeneMinimalColumns,
     /// extra tag lines in every stanza (def, synonym, xref, comment containing ": ", alt_id, created_by)
     ExtraTags,
+    /// other tag lines (xref, property_value) between the is_a lines of a stanza
+    TagsBetweenIsA,
     /// no `data-version` line in the header
     MissingDataVersion,
     /// extra header lines (saved-by, subsetdef, ontology, property_value ...)
@@ -100,6 +102,9 @@ pub fn render(f: &Facts, o: &JaxOpts) -> Rendered {
             let pname = f.terms.iter().find(|x| x.id == p).map(|x| x.name.as_str()).unwrap_or("unknown");
             let _ = c;
             s.push_str(&format!("is_a: {} ! {}\n", hp(p), pname));
+            if o.has(&Distractor::TagsBetweenIsA) {
+                s.push_str("xref: SNOMEDCT_US:123456\n");
+            }
         }
         if t.obsolete {
             s.push_str("is_obsolete: true\n");
